@@ -563,6 +563,10 @@ class MessageManager(ClientLike):
             if self.b_send_msg_timing and 0 <= header.msg_type < cd.MAX_MESSAGE_TYPES:
                 self.message_counts[header.msg_type] += 1
             self.traffic_counter[header.msg_type] += 1
+        else:
+            # only the statistics message itself is exempt: whatever its delivery
+            # triggers (FAILED_MESSAGE, CLIENT_CLOSED, log messages) is ordinary traffic
+            self.sending_traffic.set(False)
 
         dest_mod_id = header.dest_mod_id
         dest_host_id = header.dest_host_id
@@ -784,7 +788,11 @@ class MessageManager(ClientLike):
             sub_seqno = 1
             nsent = 0
             i = -1
-            for n, (mt, count) in enumerate(self.traffic_counter.items()):
+            # the interval ends here: messages handled while the report is being sent
+            # (e.g. failure notices about the report itself) belong to the next one
+            counts = list(self.traffic_counter.items())
+            self.traffic_counter.clear()
+            for n, (mt, count) in enumerate(counts):
                 data.seqno = self.traffic_seqno
                 data.sub_seqno = sub_seqno
                 data.start_timestamp = self.traffic_start
@@ -797,17 +805,18 @@ class MessageManager(ClientLike):
                 if i == cd.MESSAGE_TRAFFIC_SIZE - 1:
                     # sub-message is full
                     nsent = n + 1
+                    self.sending_traffic.set(True)
                     self.send_message(data)
                     sub_seqno += 1
 
             # Send any remaining
             if i >= 0:
                 i += 1
-                if nsent < len(self.traffic_counter):
+                if nsent < len(counts):
                     data.msg_type[i:] = [-1 for _ in range(cd.MESSAGE_TRAFFIC_SIZE - i)]
+                    self.sending_traffic.set(True)
                     self.send_message(data)
 
-        self.traffic_counter.clear()
         self.traffic_start = now
         self.traffic_seqno += 1
 
